@@ -4,118 +4,147 @@ from __future__ import annotations
 import ast
 
 from .. import astutil as A
+from .. import sym as S
 from ..core import AnalysisError, Collector
-from ..refsmodel import RefClass, ref_classes
-from .common import DEF_ATTRS, INDEX_ATTRS, FnCtx, fnctx, self_attr_stores
+from ..refterms import RefModel
+from .common import DEF_ATTRS, INDEX_ATTRS, FnCtx, SCtx, sctx, self_attr_stores
+from .c04 import model
+from .indexfx import index_effects
 
 PROP = "C12"
 FLOORS = {"C12.R1": 20, "C12.R2": 20, "C12.R3": 6}
 META = {
     "explanation": "Every concrete reference/expression class resolves __reduce__ to a definition returning (type(self), (fields...)) "
-                   "whose i-th element is the declared field that the class's __cinit__ derives from its i-th parameter, unconditionally "
-                   "(no value-dependent shortcut), containing all identifying fields and not the hash; Manager is pickled through "
-                   "__dict__: its attributes are plain containers whose default_factory is a module-level name, and it defines no "
+                   "whose i-th element is the declared field that the class's __cinit__ derives from its i-th parameter, on every "
+                   "path and untransformed (no value-dependent shortcut, no normalisation of keys), containing all identifying fields "
+                   "and not the hash; Manager is pickled through __dict__: its attributes are plain per-instance containers whose "
+                   "default_factory is a module-level name, there is no class-level mutable state, and it defines no "
                    "__getstate__/__setstate__/__reduce__ that could rebuild indices differently (multiplicities of RefCount matter).",
     "decides": "reduce tuple <-> constructor signature agreement for all node classes; pickle-safety of Manager's attributes",
     "not_decided": "behavioural equivalence of the restored copy; independence (follows from pickle's semantics)",
     "assumptions": ["pickle reconstructs cdef classes by calling type(*args), which runs the __cinit__ chain"],
 }
 
+CTORS = (S.fcall("type", S.SELF), ("attr", S.SELF, "__class__"))
+
 
 def _reduce_vs_cinit(col, rule="C12.R1"):
-    repo = col.repo
-    for rc in ref_classes(repo):
-        if rc.abstract:
+    rm = model(col)
+    for c in rm.classes:
+        if rm.abstract(c.name):
             continue
-        red = rc.reduce_fields()
-        q = f"{rc.name}.__reduce__"
-        if red is None or red[2] in ("abstract", "unrecognised"):
-            col.fail("C12.R2", f"{q}#resolves", rc.c.module.loc(rc.c.node),
-                     "a concrete class resolves __reduce__ to a definition returning (type(self), (fields...)) on its single path",
-                     "abstract/unrecognised" if red else "none")
+        q = f"{c.name}.__reduce__"
+        sx = rm.sx(c.name, "__reduce__")
+        k = rm.defining(c.name, "__reduce__")
+        rets = rm.returns(c.name, "__reduce__")
+        body = A.strip_docstring(sx.cx.orig_fn.body) if sx is not None else []
+        if sx is None or not rets or (len(body) == 1 and isinstance(body[0], ast.Raise)):
+            col.fail("C12.R2", f"{q}#resolves", c.module.loc(c.node),
+                     "a concrete class resolves __reduce__ to a definition returning (type(self), (fields...))", "abstract / none")
             continue
-        k, fn, ctor, fields = red
-        col.add("C12.R2", f"{q}#resolves", ctor in ("type(self)", "self.__class__"), k.module.loc(fn),
-                "pickling reconstructs the same class", ctor)
-        cin = rc.cinits()
+        cin = rm.cinits(c.name)
         if not cin:
-            raise AnalysisError(f"{rc.name}: no __cinit__")
-        # all cinits along the MRO take the same arguments (C20.R2); use the most derived
-        ps = A.params(cin[0][1])[1:]
-        want = [rc.field_of_param(p) for p in ps]
-        ok = fields == want
-        col.add(rule, f"{q}#tuple-matches-constructor", ok, k.module.loc(fn),
-                f"the reduce tuple lists, in constructor order, the fields derived from the constructor parameters {ps}",
-                f"reduce ({', '.join(map(str, fields))}) vs constructor fields ({', '.join(map(str, want))})")
-        undeclared = [f for f in fields if f not in rc.declared]
-        col.add(rule, f"{q}#fields-declared", not undeclared, k.module.loc(fn),
+            raise AnalysisError(f"{c.name}: no __cinit__")
+        pf = {}
+        for m in rm.param_fields(c.name).values():
+            for i, f in m.items():
+                pf.setdefault(i, f)
+        # fields derived (not stored as given) from a parameter, e.g. CallRef._kwargs = tuple(kwargs.items())
+        nparams = len([t for t in cin[0][1].sym.params.values() if t[:1] == ("param",)])
+        for f, lst in rm.field_stores(c.name).items():
+            if f == "_hash":
+                continue
+            for kk, v, conds, sx2, ev in lst:
+                ps = {s_[1] for a in S.instances(v) for s_ in S.subterms(a) if s_[:1] == ("param",)}
+                if len(ps) == 1:
+                    pf.setdefault(next(iter(ps)), f)
+        want = [S.sattr(pf[i]) if i in pf else None for i in range(nparams)]
+        ok_ctor = ok_tuple = True
+        facts = ""
+        fields = []
+        for ev, v, conds, h in rets:
+            for a in S.alts(v):
+                if not (a[:1] == ("tuple",) and len(a[1]) == 2 and a[1][1][:1] == ("tuple",)):
+                    ok_ctor = ok_tuple = False
+                    facts = f"returns {S.show(a)}"
+                    continue
+                ctor, args = a[1][0], list(a[1][1][1])
+                if ctor not in CTORS:
+                    ok_ctor = False
+                    facts = f"constructor {S.show(ctor)}"
+                fields = [x[2] if S.is_attr(x, S.SELF) else S.show(x) for x in args]
+                if args != want:
+                    ok_tuple = False
+                    facts = f"reduce ({', '.join(S.show(x) for x in args)}) vs constructor fields ({', '.join(S.show(x) if x else '?' for x in want)})"
+        col.add("C12.R2", f"{q}#resolves", ok_ctor, sx.loc(sx.fn), "pickling reconstructs the same class", facts)
+        col.add(rule, f"{q}#tuple-matches-constructor", ok_tuple, sx.loc(sx.fn),
+                "the reduce tuple lists, in constructor order and untransformed, the fields derived from the constructor parameters, "
+                "on every path", facts)
+        undeclared = [f for f in fields if f not in rm.declared(c.name)]
+        col.add(rule, f"{q}#fields-declared", not undeclared, sx.loc(sx.fn),
                 "every element of the reduce tuple is a declared field of the class (an undeclared name silently becomes an AttrRef "
                 "through BaseRef.__getattr__)", str(undeclared))
-        col.add(rule, f"{q}#hash-not-pickled", "_hash" not in fields, k.module.loc(fn), "the hash is recomputed, not pickled", "")
-    seen = set()
-    for rc in ref_classes(repo):
-        r = rc.method("__reduce__")
-        if r is None or id(r[1]) in seen:
-            continue
-        seen.add(id(r[1]))
-        k, fn = r
-        body = A.strip_docstring(fn.body)
-        if len(body) == 1 and isinstance(body[0], ast.Raise):
-            continue
-        cond = [n for n in A.walk(fn) if isinstance(n, (ast.If, ast.IfExp, ast.BoolOp, ast.Try, ast.For, ast.While))]
-        col.add(rule, f"{k.name}.__reduce__#unconditional", not cond and len(body) == 1, k.module.loc(fn),
-                "__reduce__ returns the constructor arguments unconditionally (no value-dependent shortcut that drops arguments)",
-                f"{[type(c).__name__ for c in cond]}")
+        col.add(rule, f"{q}#hash-not-pickled", "_hash" not in fields, sx.loc(sx.fn), "the hash is recomputed, not pickled", "")
+        allret = sx.cfg.must_pass(sx.cfg.ENTRY, sx.cfg.EXIT, [ev.nid for ev, _, _, _ in rets])
+        col.add(rule, f"{q}#every-path-returns", allret, sx.loc(sx.fn), "__reduce__ returns the pair on every path", "")
 
 
 def _manager(col, rule="C12.R3"):
     repo = col.repo
     mg = repo.cls("Manager")
-    init = repo.method("Manager", "__init__")
-    for a, n in self_attr_stores(init):
-        if not isinstance(n, ast.Assign):
-            continue
-        v = n.value
-        ok = False
-        if isinstance(v, (ast.Dict, ast.List, ast.Set, ast.Constant)):
-            ok = True
-        elif isinstance(v, ast.Call) and A.call_name(v) == "defaultdict" and len(v.args) == 1:
-            f = v.args[0]
-            ok = isinstance(f, ast.Name) and (f.id in mg.module.imports or f.id in mg.module.classes or f.id in ("dict", "list", "set", "int"))
-        elif isinstance(v, ast.Call) and A.call_name(v) in ("dict", "list", "set"):
-            ok = True
-        col.add(rule, f"Manager.__init__#{a}-picklable", ok, mg.module.loc(n),
-                "a Manager attribute is a plain container (default_factory a module-level name, no lambda/closure): pickled through __dict__",
-                A.src(v))
+    sx = sctx(repo, "Manager", "__init__")
+    for ev in sx.of_kind("store"):
+        for t in S.alts(ev.target):
+            if not S.is_attr(t, S.SELF):
+                continue
+            v = ev.value
+            ok = False
+            for a in S.instances(v):
+                if a[:1] in (("const",), ("dict",), ("list",), ("set",), ("tuple",)) or (a[:1] == ("acc",) and not a[2]):
+                    ok = True
+                elif S.is_call_of(a, ("glob", "defaultdict")) and len(a[2]) == 1:
+                    f = a[2][0]
+                    ok = f[:1] == ("glob",) and (f[1] in mg.module.imports or f[1] in mg.module.classes or f[1] in ("dict", "list", "set", "int"))
+                elif S.is_call_of(a) and a[1] in (("glob", "dict"), ("glob", "list"), ("glob", "set")):
+                    ok = True
+                else:
+                    ok = False
+                    break
+            col.add(rule, f"Manager.__init__#{t[2]}-picklable", ok, sx.loc(ev),
+                    "a Manager attribute is a plain container (default_factory a module-level name, no lambda/closure): pickled through __dict__",
+                    S.show(v))
     hooks = [m for m in ("__getstate__", "__setstate__", "__reduce__", "__reduce_ex__", "__getnewargs__", "__copy__", "__deepcopy__") if m in mg.methods]
     hard = [h for h in hooks if h not in ("__getstate__", "__setstate__")]
     if hard:
         raise AnalysisError(f"Manager defines {hard}: custom reconstruction, cannot decide statically")
     bad = []
     if "__setstate__" in mg.methods:
-        from . import c17
-        cx = FnCtx(mg.module, mg, mg.methods["__setstate__"])
-        sp = A.params(cx.fn)[1]
-        muts = c17.mutation_sites(cx)
-        if muts:
-            bad.append(f"__setstate__ rebuilds/mutates definitions or indices: {[d for _, d in muts]}")
-        if any(isinstance(c.func, ast.Attribute) and c.func.attr in ("register", "refresh", "clone", "cleanup", "unregister") for c in A.calls(cx.fn)):
+        s2 = sctx(repo, "Manager", "__setstate__", public=True, keep={"register", "unregister", "refresh", "clone", "cleanup"})
+        sp = s2.P(0)
+        fx, unk = index_effects(s2)
+        if fx or unk:
+            bad.append(f"__setstate__ rebuilds/mutates definitions or indices: {[e.short() for e in fx]}")
+        if s2.calls_some(("call", ("attr", S.SELF, S.V("m", lambda t: t in ("register", "refresh", "clone", "cleanup", "unregister"))), S.ANY, S.ANY)):
             bad.append("__setstate__ re-registers tasks")
-        restores = any((isinstance(c.func, ast.Attribute) and c.func.attr == "update" and A.dotted(c.func.value) == "self.__dict__"
-                        and c.args and A.dotted(c.args[0]) == sp) for c in A.calls(cx.fn)) or \
-            any(isinstance(n, ast.Assign) and A.dotted(n.targets[0]) == "self.__dict__" and A.dotted(n.value) == sp for n in A.walk(cx.fn))
+        restores = bool(s2.calls_some(S.mcall(("attr", S.SELF, "__dict__"), "update", sp))) or \
+            any(e.target == ("attr", S.SELF, "__dict__") and e.value == sp for e in s2.of_kind("store"))
         if not restores:
             bad.append("__setstate__ does not restore the pickled __dict__ as it was")
     if "__getstate__" in mg.methods:
-        fn = mg.methods["__getstate__"]
-        rets = [n.value for n in A.walk(fn) if isinstance(n, ast.Return)]
-        if not (len(rets) == 1 and A.src(rets[0]) in ("self.__dict__", "self.__dict__.copy()", "dict(self.__dict__)")):
-            bad.append(f"__getstate__ returns {[A.src(r) for r in rets]}")
+        s2 = sctx(repo, "Manager", "__getstate__", public=True)
+        d = ("attr", S.SELF, "__dict__")
+        for r in s2.of_kind("return"):
+            if r.value not in (d, S.mcall(d, "copy"), S.fcall("dict", d)):
+                bad.append(f"__getstate__ returns {S.show(r.value)[:80]}")
     col.add(rule, "Manager#pickled-through-__dict__", not bad, mg.module.loc(mg.methods[hooks[0]]) if hooks else mg.module.loc(mg.node),
             "Manager's state is pickled and restored as its __dict__: the indices (reference-counted multisets whose multiplicities "
             "matter) come back exactly as they were, they are not rebuilt", "; ".join(bad))
-    slots = "__slots__" in mg.consts
-    col.add(rule, "Manager#no-slots", not slots, mg.module.loc(mg.node), "Manager keeps its state in __dict__", "")
+    col.add(rule, "Manager#no-slots", "__slots__" not in mg.consts, mg.module.loc(mg.node), "Manager keeps its state in __dict__", "")
+    shared = [n for n, v in mg.consts.items() if isinstance(v, (ast.Dict, ast.List, ast.Set, ast.ListComp, ast.DictComp, ast.SetComp))
+              or (isinstance(v, ast.Call) and (A.call_name(v) or "").split(".")[-1] in ("dict", "list", "set", "defaultdict", "OrderedDict", "deque", "WeakValueDictionary"))]
+    col.add(rule, "Manager#no-class-level-mutable-state", not shared, mg.module.loc(mg.node),
+            "Manager has no mutable class attribute: such state is shared by all managers and is not pickled (a restored copy would "
+            "not be independent)", str(shared))
     rc = repo.cls("RefCount")
     hooks = [m for m in ("__getstate__", "__setstate__", "__reduce__", "__reduce_ex__") if m in rc.methods]
     col.add(rule, "RefCount#pickled-as-dict", not hooks and rc.base_names == ["dict"], rc.module.loc(rc.node),
